@@ -153,6 +153,8 @@ def truth(v):
         return length(v) > 0
     if isinstance(v, PyDict):
         return len(v.keys) > 0
+    if isinstance(v, Obj) and "__bool__" in v.fields:
+        return truth(v.fields["__bool__"](v))
     if isinstance(v, (Obj, NameRef, BoundMethod)):
         return True
     if isinstance(v, Opaque) and CFG_MODE[0]:
